@@ -84,12 +84,17 @@ CsinkObs(k, cs) == LET d == ChunkData(cs)
 (* decoding a stream: [ok, len, rest, used] *)
 PrefixLen(k) == CASE k = 1 -> 1 [] k \in {2, 4} -> 2 [] OTHER -> 4
 RECURSIVE VarDec(_, _, _, _)
-\* value as plain integer (streams in the model are short), i = octets consumed
+\* value as plain integer, i = octets consumed.  A varint may have up to ten octets; the groups behind the fourth stand for 2^28
+\* and more: any bit set there makes the announced length Huge (more than any destination of the model or the harness has room for),
+\* all zero (a non-minimal encoding) leaves the value of the first four groups.  acc < 0 marks "huge so far".
+Huge == 1073741824
 VarDec(s, i, acc, mul) == IF i >= Len(s) THEN [ok |-> FALSE, len |-> 0, used |-> Len(s)]
                           ELSE LET o == s[i + 1]
-                               IN IF o < 128 THEN [ok |-> TRUE, len |-> acc + o * mul, used |-> i + 1]
-                                  ELSE IF i + 1 >= 4 THEN [ok |-> FALSE, len |-> 0, used |-> i + 1]   \* model streams never carry such lengths
-                                  ELSE VarDec(s, i + 1, acc + (o % 128) * mul, mul * 128)
+                                   g == o % 128
+                                   acc2 == IF i < 4 THEN (IF acc < 0 THEN acc ELSE acc + g * mul) ELSE (IF g # 0 THEN -1 ELSE acc)
+                               IN IF o < 128 THEN [ok |-> TRUE, len |-> IF acc2 < 0 THEN Huge ELSE acc2, used |-> i + 1]
+                                  ELSE IF i + 1 >= 10 THEN [ok |-> FALSE, len |-> 0, used |-> i + 1]   \* no terminator within ten octets
+                                  ELSE VarDec(s, i + 1, acc2, IF i < 3 THEN mul * 128 ELSE mul)
 ReadPrefix(k, s) ==
     IF k = 0 THEN VarDec(s, 0, 0, 1)
     ELSE IF Len(s) < PrefixLen(k) THEN [ok |-> FALSE, len |-> 0, used |-> Len(s)]
